@@ -114,6 +114,7 @@ def run(v, tier, seed, replay):
         v.sample({"cfg": c["edges"][0]["cfg"], "hist": c["edges"][0]["hist"], "mode": list(c["mode"]), "expected_scalar_A": c["edges"][0]["scA"]})
     v.cov["rule"] = "flow: 8 configurations (nx 1..3, nsun 2..6, nrhos 1..2, nscalars 0..2) x all 32 switch sets x durations x 11 stepper modes (quick: 1/3 hashed); protocol: one two-segment run per stepper mode and random configuration, every Rhs validated"
     v.assumptions.append("that GSL integrates an arbitrary user right-hand side to tolerance is GSL's contract; decided here: SQuIDS hands GSL exactly the documented right-hand side (structure for all switch sets, values on the solvable family)")
+    solver.long_evolve(v, exe)
     if inconclusive and not v.violations:
         raise Infra(inconclusive[0])
     return "model_checking"
